@@ -1920,3 +1920,47 @@ theorem c04_table_value_is_global_value (s : PMM V) (hw : C04.PMMWF s) (g : List
   · simp only [Bool.false_eq_true, if_false, Option.map_map]
     cases g[C04.rankAt s.gps.params j]? <;> rfl
   · rfl
+
+/-! ### random initial values lie inside the reported bounds -/
+
+section random
+variable {K : Type} [CommRing K] [LinearOrder K] [IsStrictOrderedRing K]
+
+/-- **`generate_random_floating_param_initials`**: for uniform draws in `[0, 1]` (one per floating
+parameter) it does not raise and the `i`-th value is `lo + u·(hi − lo)` of the `i`-th floating parameter
+in declaration order — inside that parameter's bounds, the same bounds `floating_param_bounds` reports -/
+theorem c04_random_initials (s : PSet K) (hs : Coherent s) (u : List K) (hu : u.length = s.floatNames.length)
+    (h01 : ∀ x ∈ u, 0 ≤ x ∧ x ≤ 1) :
+    ∃ rs, s.randomInitials u = .ok rs ∧ rs.length = u.length ∧
+      ∀ (i : Nat) (p : Param K) (x : K), (s.params.filter (fun p => !p.isfixed))[i]? = some p → u[i]? = some x →
+        ∃ lo hi, p.valmin = some lo ∧ p.valmax = some hi ∧ rs[i]? = some (some (lo + x * (hi - lo))) ∧
+          lo ≤ lo + x * (hi - lo) ∧ lo + x * (hi - lo) ≤ hi := by
+  have hfm : s.floatMask = s.params.map (fun p => !p.isfixed) := by
+    simp [PSet.floatMask, hs.mask]
+  have hsel : maskSel s.params s.floatMask = .ok (s.params.filter (fun p => !p.isfixed)) := by
+    rw [hfm, maskSel_map]
+  have hlen : (s.params.filter (fun p => !p.isfixed)).length = u.length := by
+    rw [hu, hs.caches.floatNames, List.length_map]
+  unfold PSet.randomInitials
+  rw [hsel]
+  simp only [hlen, ne_eq, not_true_eq_false, if_false]
+  refine ⟨_, rfl, by simp [List.length_zipWith, hlen], ?_⟩
+  intro i p x hp hx
+  have hpm : p ∈ s.params.filter (fun p => !p.isfixed) := List.mem_of_getElem? hp
+  obtain ⟨hpmem, hpf⟩ := List.mem_filter.1 hpm
+  have hpf' : p.isfixed = false := by simpa using hpf
+  obtain ⟨lo, hi, hlo, hhi, hval, _⟩ := (hs.wf p hpmem).2 hpf'
+  obtain ⟨h1, h2⟩ := outside_eq_false.1 hval
+  have hlohi : lo ≤ hi := le_trans h1 h2
+  obtain ⟨hx0, hx1⟩ := h01 x (List.mem_of_getElem? hx)
+  refine ⟨lo, hi, hlo, hhi, ?_, ?_, ?_⟩
+  · rw [List.getElem?_zipWith, hp, hx]
+    simp [hlo, hhi]
+  · nlinarith [mul_nonneg hx0 (sub_nonneg.2 hlohi)]
+  · nlinarith [mul_nonneg (sub_nonneg.2 hx1) (sub_nonneg.2 hlohi)]
+
+end random
+
+example : (PSet.run (PSet.empty : PSet Int)
+    [.add ⟨"a", 1, some 0, some 4, none⟩ false, .add ⟨"c", 2, some 1, some 3, none⟩ true]).randomInitials [1, 0]
+    = .ok [some 3, some 0] := by decide
